@@ -271,6 +271,17 @@ func (p *provider) updateRuleSet(oldObj, newObj any) {
 	newRS := newObj.(*v1alpha4.RuleSet) // nolint: forcetypeassert
 	oldRS := oldObj.(*v1alpha4.RuleSet) // nolint: forcetypeassert
 
+	if oldRS.UID != newRS.UID {
+		// the rule set has been deleted and created again using the same name, while the informer was
+		// not able to watch the changes (e.g. while being disconnected). After the subsequent re-list,
+		// that is reported as an update. The generation of the new object starts however from the
+		// beginning, and it is identified by another UID, so it is another source of rules.
+		p.deleteRuleSet(oldRS)
+		p.addRuleSet(newRS)
+
+		return
+	}
+
 	if oldRS.Generation == newRS.Generation {
 		// we're only interested in Spec updates. Changes in metadata or status are not of relevance
 		return
